@@ -50,6 +50,8 @@ pub enum Step {
     Torn { doc: usize, permille: u16 },
     Delete,
     DirInPlace,
+    /// (symlink layout only) write `doc` into a fresh directory and re-point the link to it
+    Repoint { doc: usize },
 }
 
 #[derive(Clone, Debug, Serialize, Deserialize, PartialEq)]
@@ -65,6 +67,10 @@ pub struct Scn {
     pub docs: Vec<Doc>,
     pub steps: Vec<Step>,
     pub with_mtime: bool,
+    /// the configured path is a symbolic link (ConfigMap-style layout); `Repoint`
+    /// steps change the configuration by re-pointing the link atomically
+    #[serde(default)]
+    pub via_symlink: bool,
     /// logger threads living at xx.25 s (never concurrent with a poll)
     pub calm: Vec<Vec<LogAt>>,
     /// logger threads living at xx.0 s (may race with polls)
@@ -80,6 +86,7 @@ pub fn render(doc: &Doc, version: usize) -> String {
     if let Some(r) = doc.rate_s {
         s.push_str(&format!("refresh_rate: {} seconds\n", r));
     }
+    s.push_str("# ──── appenders ──── 設定 ────\n");
     s.push_str("appenders:\n");
     for (i, a) in doc.cfg.appenders.iter().enumerate() {
         s.push_str(&format!("  a{}:\n", i));
@@ -97,6 +104,7 @@ pub fn render(doc: &Doc, version: usize) -> String {
             }
         }
     }
+    s.push_str("# ──── root ────\n");
     s.push_str(&format!("root:\n  level: {}\n  appenders: [{}]\n", LEVELS[doc.cfg.root_level as usize], doc.cfg.root_appenders.iter().map(|i| format!("a{}", i)).collect::<Vec<_>>().join(", ")));
     if !doc.cfg.loggers.is_empty() {
         s.push_str("loggers:\n");
@@ -114,7 +122,9 @@ pub fn render(doc: &Doc, version: usize) -> String {
 }
 
 fn damage(kind: u8, text: &str) -> String {
-    match kind % 4 {
+    match kind % 6 {
+        4 => text.replacen("root:\n  level: ", "root:\n  level: x", 1), // unknown level right below a ruler comment
+        5 => text.replacen("# ──── root ────\n", "# ──── root ────\nroot: [unclosed\n", 1), // syntax error next to non-ASCII text
         0 => format!("{}extra: [1, 2\n", text),                        // unterminated flow sequence
         1 => text.replacen("root:\n  level", "root:\n\tlevel", 1),      // tab indentation
         2 => format!("refresh_rate: [1, 2]\n{}", text.lines().filter(|l| !l.starts_with("refresh_rate")).collect::<Vec<_>>().join("\n")), // wrong scalar type
@@ -230,7 +240,7 @@ pub fn generate(rng: &mut Rng, tier: Tier) -> Scn {
             7 => Step::WriteBackdated { doc: rng.below(ndocs as u64) as usize },
             0 => Step::Write { doc: rng.below(ndocs as u64) as usize },
             1 => Step::Touch,
-            2 => Step::Damage { kind: rng.below(4) as u8, doc: rng.below(ndocs as u64) as usize },
+            2 => Step::Damage { kind: rng.below(6) as u8, doc: rng.below(ndocs as u64) as usize },
             3 => Step::Torn { doc: rng.below(ndocs as u64) as usize, permille: rng.range(1, 999) as u16 },
             4 => Step::Write { doc: 0 },
             5 => Step::Delete,
@@ -246,7 +256,17 @@ pub fn generate(rng: &mut Rng, tier: Tier) -> Scn {
     let mk = |rng: &mut Rng, n: usize| -> Vec<LogAt> { (0..n).map(|_| LogAt { sleep_s: *rng.pick(&[1u64, 1, 2, 3, 5, 30]), target: rng.pick(&TARGETS).to_string(), level: rng.range(1, 5) as u8 }).collect() };
     let calm = (0..rng.range(1, 2)).map(|_| { let n = rng.range(2, 8) as usize; mk(rng, n) }).collect();
     let racing = (0..rng.range(0, 2)).map(|_| { let n = rng.range(2, 8) as usize; mk(rng, n) }).collect();
-    Scn { docs, steps, with_mtime: rng.chance(3, 4), calm, racing, sched_seed: rng.next_u64(), policy: common::gen_policy(rng) }
+    let via_symlink = rng.chance(1, 4);
+    if via_symlink {
+        for st in steps.iter_mut() {
+            if let Step::Write { doc } = st {
+                if rng.chance(1, 2) {
+                    *st = Step::Repoint { doc: *doc };
+                }
+            }
+        }
+    }
+    Scn { docs, steps, with_mtime: rng.chance(3, 4), via_symlink, calm, racing, sched_seed: rng.next_u64(), policy: common::gen_policy(rng) }
 }
 
 // ---------------------------------------------------------------- executor
@@ -288,8 +308,16 @@ pub fn execute(scn: &Scn, opts: &ExecOpts) -> Outcome {
     let k = common::begin(RunCfg { sched, trace: opts.trace, start_ns: start, tz: None, faults: vec![], crash: None, rand_script: vec![], step_cap: 100_000 });
 
     let text0 = render(&scn.docs[0], 0);
-    fs::write(&path, &text0).unwrap();
-    set_mtime(&path, start - 1_000_000_000);
+    if scn.via_symlink {
+        let d0 = scratch.path("gen-0");
+        fs::create_dir_all(&d0).unwrap();
+        fs::write(d0.join("log4rs.yaml"), &text0).unwrap();
+        set_mtime(&d0.join("log4rs.yaml"), start - 1_000_000_000);
+        std::os::unix::fs::symlink(d0.join("log4rs.yaml"), &path).unwrap();
+    } else {
+        fs::write(&path, &text0).unwrap();
+        set_mtime(&path, start - 1_000_000_000);
+    }
     let logger = Arc::new(log4rs::Logger::new(Config::builder().build(Root::builder().build(log::LevelFilter::Off)).unwrap()));
     let _ = Appender::builder;
     let edits: Arc<Mutex<Vec<Edit>>> = Arc::new(Mutex::new(vec![]));
@@ -315,12 +343,16 @@ pub fn execute(scn: &Scn, opts: &ExecOpts) -> Outcome {
             kernel::sim_sleep(Duration::from_millis(500));
             let mut last_text = render(&scn.docs[0], 0);
             let mut backdated: i64 = 0;
+            let mut generation: u32 = 0;
             for st in &scn.steps {
                 let now = clock::now_ns();
                 let write = |text: &str| {
-                    let _ = fs::remove_dir_all(&path);
-                    let _ = fs::remove_file(&path);
-                    fs::write(&path, text).unwrap();
+                    let is_link = fs::symlink_metadata(&path).map(|m| m.file_type().is_symlink()).unwrap_or(false);
+                    if !(is_link && fs::metadata(&path).is_ok()) {
+                        let _ = fs::remove_dir_all(&path);
+                        let _ = fs::remove_file(&path);
+                    }
+                    fs::write(&path, text).unwrap(); // in place (through the link, if it is one)
                     set_mtime(&path, now);
                 };
                 match st {
@@ -364,6 +396,26 @@ pub fn execute(scn: &Scn, opts: &ExecOpts) -> Outcome {
                         }
                         let t = full[..cut].to_string();
                         write(&t);
+                        last_text = t.clone();
+                        edits.lock().unwrap().push(Edit { at_ns: now, state: FileState::Text(t) });
+                    }
+                    Step::Repoint { doc } => {
+                        let t = render(&scn.docs[*doc], *doc);
+                        generation += 1;
+                        let d = path.parent().unwrap().join(format!("gen-{}", generation));
+                        fs::create_dir_all(&d).unwrap();
+                        fs::write(d.join("log4rs.yaml"), &t).unwrap();
+                        set_mtime(&d.join("log4rs.yaml"), now);
+                        // ln -sfn: new link under a temporary name, renamed over the old one
+                        let tmp = path.with_extension("tmp-link");
+                        let _ = fs::remove_file(&tmp);
+                        std::os::unix::fs::symlink(d.join("log4rs.yaml"), &tmp).unwrap();
+                        let _ = fs::remove_dir_all(&path);
+                        fs::rename(&tmp, &path).unwrap();
+                        // the previous generation goes away, as in a ConfigMap update
+                        if generation >= 1 {
+                            let _ = fs::remove_dir_all(path.parent().unwrap().join(format!("gen-{}", generation - 1)));
+                        }
                         last_text = t.clone();
                         edits.lock().unwrap().push(Edit { at_ns: now, state: FileState::Text(t) });
                     }
